@@ -24,6 +24,13 @@
 // case that is not expired, selects the validator and has no report of it on the chain: exactly one report each, none
 // for any other request.
 //
+// CacheOps damage the daemon's on-disk executable cache (<cache dir>/<sha256>) before a round: the file of a data
+// source's current executable is truncated, overwritten with other bytes of the same length, emptied (what a crash in
+// the middle of diskv's in-place write leaves behind) or deleted. The file cache verifies content against name, so the
+// daemon has to fall back to the node exactly as for a missing file: the raw report still carries the result of
+// running the on-chain executable (or 255 only if the node cannot serve the file either). A long-lived daemon may still
+// hold the content in memory; a restart round reads the disk.
+//
 // Executor mode "rest" (Exec = "rest") puts the REAL executor of yoda/executor in place of the stub:
 // executor.NewExecutor("rest:http://127.0.0.1:<port>/?timeout=...") talks to an HTTP server inside the test process
 // that plays the remote executor endpoint from the generated case: per (BAND_REQUEST_ID, BAND_EXTERNAL_ID) of the
@@ -149,44 +156,52 @@ type c19Edit struct {
 	BadSender bool   `json:"bad_sender,omitempty"` // sent by an account that is not the owner: refused, nothing changes
 }
 
+// c19CacheOp damages (or removes) the cache file of the current executable of a data source.
+type c19CacheOp struct {
+	DS   int    `json:"ds"`
+	Kind string `json:"kind"` // truncate | overwrite | empty | delete
+}
+
 // c19Round is one later round of the same daemon: chain-side edits, new requests, handling.
 type c19Round struct {
-	Edits     []c19Edit `json:"edits,omitempty"`      // block before this round's requests
-	LateEdits []c19Edit `json:"late_edits,omitempty"` // block after the requests, before the daemon handles them
-	Txs       []c19Tx   `json:"txs"`
-	Mode      string    `json:"mode"` // direct | direct-go | tx | tx-go | restart
-	Rot       int       `json:"rot,omitempty"`
-	Rev       bool      `json:"rev,omitempty"`
-	Ghost     bool      `json:"ghost,omitempty"`
-	Idle      int       `json:"idle,omitempty"`       // restart: empty blocks between the reports of the others and the start-up
-	Expire    int       `json:"expire,omitempty"`     // restart, last round only: 1 = blocks pass until the requests of earlier rounds have expired, 2 = this round's too
-	StoreFail int       `json:"store_fail,omitempty"` // the first k /store queries of this round fail
-	DataFail  int       `json:"data_fail,omitempty"`  // the first k Query/Data queries (of fetchable files) of this round fail
+	CacheOps  []c19CacheOp `json:"cache_ops,omitempty"`  // after Edits, before this round's requests
+	Edits     []c19Edit    `json:"edits,omitempty"`      // block before this round's requests
+	LateEdits []c19Edit    `json:"late_edits,omitempty"` // block after the requests, before the daemon handles them
+	Txs       []c19Tx      `json:"txs"`
+	Mode      string       `json:"mode"` // direct | direct-go | tx | tx-go | restart
+	Rot       int          `json:"rot,omitempty"`
+	Rev       bool         `json:"rev,omitempty"`
+	Ghost     bool         `json:"ghost,omitempty"`
+	Idle      int          `json:"idle,omitempty"`       // restart: empty blocks between the reports of the others and the start-up
+	Expire    int          `json:"expire,omitempty"`     // restart, last round only: 1 = blocks pass until the requests of earlier rounds have expired, 2 = this round's too
+	StoreFail int          `json:"store_fail,omitempty"` // the first k /store queries of this round fail
+	DataFail  int          `json:"data_fail,omitempty"`  // the first k Query/Data queries (of fetchable files) of this round fail
 }
 
 type c19Case struct {
-	NVals     int     `json:"nvals"`
-	Active    []bool  `json:"active"`
-	Me        int     `json:"me"` // index of the validator the daemon works for
-	DSs       []c19DS `json:"dss"`
-	Txs       []c19Tx `json:"txs"`
-	Mode      string  `json:"mode"` // direct | direct-go | tx | tx-go
-	Rot       int     `json:"rot,omitempty"`
-	Rev       bool    `json:"rev,omitempty"`
-	Ghost     bool    `json:"ghost,omitempty"` // direct modes: also handle a request id that does not exist
-	MaxTry    int     `json:"max_try"`
-	StoreFail int     `json:"store_fail,omitempty"` // the first k /store queries fail
-	DataFail  int     `json:"data_fail,omitempty"`  // the first k Query/Data queries (of fetchable files) fail
-	Yield     bool    `json:"yield,omitempty"`      // RPC stub yields the processor on every call
-	NKeys     int     `json:"nkeys"`                // 1 or 3 reporter keys
-	Procs     int     `json:"procs,omitempty"`      // GOMAXPROCS for this case (0 = leave)
-	ExclShort int     `json:"excl_short,omitempty"` // number of short executables remapped because of the known finding
-	Idle      int     `json:"idle,omitempty"`       // round 1, mode restart: see c19Round
-	Expire    int     `json:"expire,omitempty"`     // round 1, mode restart: see c19Round
-	ExpBlocks int     `json:"exp_blocks,omitempty"` // oracle param ExpirationBlockCount (0 = default 100)
-	Exec      string  `json:"exec,omitempty"`       // "" = executor stub, "rest" = the real REST executor against an in-process endpoint
-	MaxData   int     `json:"max_data,omitempty"`   // oracle param MaxReportDataSize of the chain (0 = default 512)
-	ExecCut   int     `json:"exec_cut,omitempty"`   // the executor cuts its output to this many bytes (0 = it does not cut)
+	NVals     int          `json:"nvals"`
+	Active    []bool       `json:"active"`
+	Me        int          `json:"me"` // index of the validator the daemon works for
+	DSs       []c19DS      `json:"dss"`
+	Txs       []c19Tx      `json:"txs"`
+	Mode      string       `json:"mode"` // direct | direct-go | tx | tx-go
+	Rot       int          `json:"rot,omitempty"`
+	Rev       bool         `json:"rev,omitempty"`
+	Ghost     bool         `json:"ghost,omitempty"` // direct modes: also handle a request id that does not exist
+	MaxTry    int          `json:"max_try"`
+	StoreFail int          `json:"store_fail,omitempty"` // the first k /store queries fail
+	DataFail  int          `json:"data_fail,omitempty"`  // the first k Query/Data queries (of fetchable files) fail
+	Yield     bool         `json:"yield,omitempty"`      // RPC stub yields the processor on every call
+	NKeys     int          `json:"nkeys"`                // 1 or 3 reporter keys
+	Procs     int          `json:"procs,omitempty"`      // GOMAXPROCS for this case (0 = leave)
+	ExclShort int          `json:"excl_short,omitempty"` // number of short executables remapped because of the known finding
+	CacheOps  []c19CacheOp `json:"cache_ops,omitempty"`  // round 1: before the requests
+	Idle      int          `json:"idle,omitempty"`       // round 1, mode restart: see c19Round
+	Expire    int          `json:"expire,omitempty"`     // round 1, mode restart: see c19Round
+	ExpBlocks int          `json:"exp_blocks,omitempty"` // oracle param ExpirationBlockCount (0 = default 100)
+	Exec      string       `json:"exec,omitempty"`       // "" = executor stub, "rest" = the real REST executor against an in-process endpoint
+	MaxData   int          `json:"max_data,omitempty"`   // oracle param MaxReportDataSize of the chain (0 = default 512)
+	ExecCut   int          `json:"exec_cut,omitempty"`   // the executor cuts its output to this many bytes (0 = it does not cut)
 	// later rounds handled by the same daemon Context (round 1 = the fields above)
 	LateEdits []c19Edit  `json:"late_edits,omitempty"` // round 1: edits between the requests and their handling
 	Rounds    []c19Round `json:"rounds,omitempty"`
@@ -375,6 +390,21 @@ func sortedKeys(m map[int]bool) []int {
 	return out
 }
 
+func genCacheOps(rt *rapid.T, nds int, usedList []int) []c19CacheOp {
+	if !gen.Chance(rt, "cacheops", 1, 3) {
+		return nil
+	}
+	var out []c19CacheOp
+	for i, n := 0, gen.OneOf(rt, "ncacheops", 1, 1, 2, 3); i < n; i++ {
+		op := c19CacheOp{DS: gen.Uniform(rt, "cods", nds), Kind: gen.OneOf(rt, "cokind", "truncate", "truncate", "overwrite", "overwrite", "empty", "delete")}
+		if len(usedList) > 0 && gen.Chance(rt, "coused", 3, 4) {
+			op.DS = usedList[gen.Uniform(rt, "cousedi", len(usedList))] // a file the daemon has probably fetched already
+		}
+		out = append(out, op)
+	}
+	return out
+}
+
 func genC19(rt *rapid.T) c19Case {
 	minLen := minExecLen()
 	c := c19Case{}
@@ -413,6 +443,7 @@ func genC19(rt *rapid.T) c19Case {
 		c.Exec = "rest"
 	}
 	hangLeft := 2
+	c.CacheOps = genCacheOps(rt, nds, nil)
 	c.Txs = genTxs(rt, nds, nActive, c.MaxData, prefer1, used, c.Mode == "restart", c.Exec == "rest", &hangLeft)
 	if c.Mode == "restart" {
 		c.Idle = gen.OneOf(rt, "idle", 0, 0, 1, 3)
@@ -442,6 +473,7 @@ func genC19(rt *rapid.T) c19Case {
 				edited[mod(e.DS, nds)] = true
 			}
 		}
+		rd.CacheOps = genCacheOps(rt, nds, usedList)
 		rd.Mode = gen.OneOf(rt, "rmode", "direct", "direct", "direct-go", "tx", "tx", "tx-go", "restart", "restart", "restart")
 		rd.Txs = genTxs(rt, nds, nActive, c.MaxData, sortedKeys(edited), used, rd.Mode == "restart", c.Exec == "rest", &hangLeft)
 		if rd.Mode == "restart" {
@@ -1000,6 +1032,10 @@ type c19World struct {
 	restLongBody, restShortBody, restTimeouts, restBadJSON, restClosed, restOK int
 	spuriousTimeouts, errReportsWithData                                       int
 
+	damaged                                                     map[string]bool // file hashes whose cache file the harness has damaged or deleted
+	cacheOpsApplied, cacheOpsDamaging, cacheOpsMissing          int
+	damagedAskedRaws, damagedAskedRan, damagedAskedAfterRestart int
+
 	nRounds  int
 	cacheDir string
 	kb       keyring.Keyring
@@ -1115,6 +1151,45 @@ func (w *c19World) applyEdits(edits []c19Edit, late bool, ri int) bool {
 		}
 	}
 	return true
+}
+
+// damageCache applies the round's cache operations to the files of the daemon's cache directory. From then on the
+// harness no longer counts the file as cached: the daemon has to get the executable from the node.
+func (w *c19World) damageCache(ops []c19CacheOp) {
+	for _, op := range ops {
+		d := w.cur[uint64(1+mod(op.DS, w.nds))]
+		path := filepath.Join(w.cacheDir, d.hash)
+		old, err := os.ReadFile(path)
+		if err != nil || d.hash == "" {
+			w.cacheOpsMissing++ // nothing cached under this name (yet)
+			continue
+		}
+		var werr error
+		switch op.Kind {
+		case "delete":
+			werr = os.Remove(path)
+		case "empty":
+			werr = os.WriteFile(path, nil, 0o600)
+		case "overwrite":
+			b := make([]byte, len(old))
+			for i := range old {
+				b[i] = old[i] ^ 0xff
+			}
+			werr = os.WriteFile(path, b, 0o600)
+		default: // truncate: the first half survived
+			werr = os.WriteFile(path, old[:len(old)/2], 0o600)
+		}
+		if werr != nil {
+			w.cacheOpsMissing++
+			continue
+		}
+		w.cacheOpsApplied++
+		if op.Kind != "delete" {
+			w.cacheOpsDamaging++
+		}
+		w.damaged[d.hash] = true
+		delete(w.cachedHash, d.hash)
+	}
 }
 
 // othersReport (restart rounds): before the daemon starts, the generated subset of the other selected validators
@@ -1333,9 +1408,12 @@ func runC19(c c19Case) *pbt.Verdict {
 	if c.ExclShort > 0 {
 		v.Count("excluded_known", int64(c.ExclShort))
 	}
-	rounds := append([]c19Round{{LateEdits: c.LateEdits, Txs: c.Txs, Mode: c.Mode, Rot: c.Rot, Rev: c.Rev, Ghost: c.Ghost,
+	rounds := append([]c19Round{{CacheOps: c.CacheOps, LateEdits: c.LateEdits, Txs: c.Txs, Mode: c.Mode, Rot: c.Rot, Rev: c.Rev, Ghost: c.Ghost,
 		Idle: c.Idle, Expire: c.Expire, StoreFail: c.StoreFail, DataFail: c.DataFail}}, c.Rounds...)
 	for i := range rounds {
+		if len(rounds[i].CacheOps) > 8 {
+			rounds[i].CacheOps = rounds[i].CacheOps[:8]
+		}
 		if rounds[i].Idle < 0 || rounds[i].Idle > 5 {
 			rounds[i].Idle = 0
 		}
@@ -1349,7 +1427,7 @@ func runC19(c c19Case) *pbt.Verdict {
 
 	w := &c19World{c: c, v: v, nds: nds, cur: map[uint64]dsVer{}, seenHash: map[string]bool{}, cachedHash: map[string]bool{},
 		permHash: map[string]bool{}, byID: map[uint64]*reqModel{}, reported: map[uint64]int{}, lookedUp: map[uint64]string{},
-		modes: map[string]bool{}, nRounds: len(rounds)}
+		modes: map[string]bool{}, nRounds: len(rounds), damaged: map[string]bool{}}
 
 	// -- chain ------------------------------------------------------------------------------------------
 	vals := make([]sim.ValSpec, c.NVals)
@@ -1483,6 +1561,7 @@ func (w *c19World) round(ri int, rd c19Round) (*pbt.Verdict, bool) {
 	if !w.applyEdits(rd.Edits, false, ri) {
 		return nil, false
 	}
+	w.damageCache(rd.CacheOps)
 	reqVer := w.cur
 
 	// -- requests ---------------------------------------------------------------------------------------
@@ -1860,6 +1939,12 @@ func (w *c19World) round(ri int, rd c19Round) (*pbt.Verdict, bool) {
 			did := uint64(1 + mod(r.DS, nds))
 			hReq, hNow := m.reqHash[j], m.handleHash[j]
 			n := calls[execKey{m.id, r.EID}]
+			if w.damaged[hNow] {
+				w.damagedAskedRaws++
+				if restart {
+					w.damagedAskedAfterRestart++
+				}
+			}
 			// did the daemon look this data source up before, and has its executable been replaced since?
 			prevHash, seenBefore := w.lookedUp[did]
 			if seenBefore && ri > 0 {
@@ -1933,7 +2018,10 @@ func (w *c19World) round(ri int, rd c19Round) (*pbt.Verdict, bool) {
 							m.id, r.EID, rr.ExitCode, len(rr.Data), r.Code, len(want))
 					}
 				}
-				if (h == hReq || h == hNow) && w.permHash[h] && !w.cachedHash[h] {
+				if w.damaged[h] {
+					w.damagedAskedRan++
+				}
+				if (h == hReq || h == hNow) && w.permHash[h] && !w.cachedHash[h] && !w.damaged[h] { // (a damaged file may live on in the daemon's memory)
 					v.Failf("harness", "request %d eid %d: executor ran although the file can never be fetched", m.id, r.EID)
 				}
 				continue
@@ -2145,6 +2233,24 @@ func (w *c19World) stats(nRounds int) {
 		}
 	} else {
 		v.Class("executor:stub")
+	}
+	v.Count("cache_ops_applied", int64(w.cacheOpsApplied))
+	v.Count("cache_ops_damaging", int64(w.cacheOpsDamaging))
+	v.Count("cache_ops_no_such_file", int64(w.cacheOpsMissing))
+	v.Count("damaged_cache_entry_asked_raws", int64(w.damagedAskedRaws))
+	v.Count("damaged_cache_entry_asked_and_executed", int64(w.damagedAskedRan))
+	v.Count("damaged_cache_entry_asked_after_restart", int64(w.damagedAskedAfterRestart))
+	if w.cacheOpsDamaging > 0 {
+		v.Class("cache-entry-damaged")
+	}
+	if w.cacheOpsApplied > w.cacheOpsDamaging {
+		v.Class("cache-entry-deleted")
+	}
+	if w.damagedAskedRaws > 0 {
+		v.Class("damaged-cache-entry-asked")
+	}
+	if w.damagedAskedAfterRestart > 0 {
+		v.Class("damaged-cache-entry-asked-after-restart")
 	}
 	v.Count("restart_rounds", int64(w.restartRounds))
 	v.Count("restart_pending_ids_returned", int64(w.rsReturned))
